@@ -15,6 +15,7 @@ import (
 	"io"
 	"math/big"
 	"net"
+	"regexp"
 	"strings"
 	"sync"
 	"testing"
@@ -129,6 +130,9 @@ type sessionCase struct {
 	// the server the session connects to ("" = the domain of its own address, or
 	// a host in another domain: hosted service, server-to-server)
 	location string
+	// the constructor: "" NewSession with a negotiator, "client" / "server" the
+	// convenience constructors NewClientSession / NewServerSession
+	ctor string
 	// the peer's first header on the protected stream: "" complete, "noid" /
 	// "noversion": lacks what its clear-text header declared
 	protHdr string
@@ -158,7 +162,7 @@ func (tc tcase) String() string {
 	var sb strings.Builder
 	fmt.Fprintf(&sb, "StartTLS(cfg nil=%v) reused for %d sessions (one Negotiator value for all: %v):", tc.nilCfg, len(tc.sessions), tc.sharedNeg)
 	for i, s := range tc.sessions {
-		fmt.Fprintf(&sb, "\n  session %d: domain=%s first-list=%s answer=%s after-proceed=%s honest-after-tls=%v tee=%v extra-double=%v clear-header-to=%q location=%q first-protected-header=%q transport-wrapper-with-ConnectionState-method=%v client-mechanisms=%q", i, s.domain, s.first, s.answer, s.after, s.honest, s.tee, s.extraDbl, s.hdrTo, s.location, s.protHdr, s.wrapped, s.mechs)
+		fmt.Fprintf(&sb, "\n  session %d: domain=%s first-list=%s answer=%s after-proceed=%s honest-after-tls=%v tee=%v extra-double=%v clear-header-to=%q location=%q first-protected-header=%q transport-wrapper-with-ConnectionState-method=%v client-mechanisms=%q constructor=%q", i, s.domain, s.first, s.answer, s.after, s.honest, s.tee, s.extraDbl, s.hdrTo, s.location, s.protHdr, s.wrapped, s.mechs, s.ctor)
 	}
 	return sb.String()
 }
@@ -183,6 +187,7 @@ func whitespaceTokens(n int) string {
 	}
 	return sb.String()
 }
+
 var afters = []string{"tls", "tls", "tls-inject", "tls-inject", "garbage"}
 
 func genCase(t *rapid.T) tcase {
@@ -203,6 +208,20 @@ func genCase(t *rapid.T) tcase {
 			wrapped:  rapid.IntRange(0, 3).Draw(t, "wrapped") == 0,
 			mechs:    rapid.SampledFrom([]string{"", "", "", "scram", "scram+plain"}).Draw(t, "mechs"),
 		})
+		sc := &tc.sessions[len(tc.sessions)-1]
+		if !sc.tee {
+			switch rapid.IntRange(0, 3).Draw(t, "ctor") {
+			case 0:
+				// NewClientSession: the server is the domain of the own address
+				sc.ctor, sc.location = "client", ""
+			case 1:
+				// NewServerSession: we are the server sc.domain, the peer another one
+				sc.ctor, sc.honest = "server", false
+				if sc.location == "" {
+					sc.location = "peer.example.com"
+				}
+			}
+		}
 	}
 	return tc
 }
@@ -228,6 +247,8 @@ type sresult struct {
 	// Session.In() once the constructor has returned
 	inID, inLang string
 }
+
+var toAttr = regexp.MustCompile(` to=['"]([^'"]*)['"]`)
 
 func header(from string) string { return headerTo(from, "") }
 
@@ -329,6 +350,15 @@ func runSessionNeg(sc sessionCase, feature xmpp.StreamFeature, forceTee *bool, s
 		useTee = *forceTee
 	}
 	local := jid.MustParse("juliet@" + sc.domain + "/balcony")
+	if sc.ctor == "server" {
+		local = jid.MustParse(sc.domain)
+	}
+	fix := func(h string) string {
+		if sc.ctor == "server" {
+			return strings.Replace(h, `xmlns="`+stanza.NSClient+`"`, `xmlns="`+stanza.NSServer+`"`, 1)
+		}
+		return h
+	}
 	peerFrom := sc.domain
 	if sc.location != "" {
 		peerFrom = sc.location
@@ -368,18 +398,25 @@ func runSessionNeg(sc sessionCase, feature xmpp.StreamFeature, forceTee *bool, s
 		}) {
 			return
 		}
+		if sc.ctor == "server" {
+			// the receiving server answers as the host the initiating server
+			// addressed (virtual hosting): from = the 'to' of the header it got
+			if m := toAttr.FindSubmatch(acc); m != nil {
+				peerFrom = string(m[1])
+			}
+		}
 		// 2. first features list
-		hdr1 := header(peerFrom)
+		hdr1 := fix(header(peerFrom))
 		switch sc.hdrTo {
 		case "own":
-			hdr1 = headerTo(peerFrom, local.String())
+			hdr1 = fix(headerTo(peerFrom, local.String()))
 		case "foreign":
-			hdr1 = headerTo(peerFrom, "alice@evil.example")
+			hdr1 = fix(headerTo(peerFrom, "alice@evil.example"))
 		case "foreign-samelen":
 			// somebody else's address, in another domain, whose parts are as long
 			// as the parts of the client's own address
 			other := map[string]string{"example.net": "example.org", "example.org": "example.net", "im.example.com": "im.example.net"}[sc.domain]
-			hdr1 = headerTo(peerFrom, "romeo1@"+other+"/balcony")
+			hdr1 = fix(headerTo(peerFrom, "romeo1@"+other+"/balcony"))
 		}
 		starttls := `<starttls xmlns="` + tlsNS + `"/>`
 		mechs := `<mechanisms xmlns="` + saslNS + `"><mechanism>PLAIN</mechanism><mechanism>SCRAM-SHA-1</mechanism><mechanism>SCRAM-SHA-256</mechanism></mechanisms>`
@@ -476,7 +513,7 @@ func runSessionNeg(sc sessionCase, feature xmpp.StreamFeature, forceTee *bool, s
 			return
 		case "tls-inject":
 			// classic STARTTLS injection: forged plaintext pipelined behind <proceed/>
-			feedClear(proceed + header(peerFrom) + `<stream:features>` + mechs + `</stream:features>`)
+			feedClear(proceed + fix(header(peerFrom)) + `<stream:features>` + mechs + `</stream:features>`)
 		default:
 			feedClear(proceed)
 		}
@@ -526,13 +563,13 @@ func runSessionNeg(sc sessionCase, feature xmpp.StreamFeature, forceTee *bool, s
 			return
 		}
 		if !sc.honest {
-			srv.Write([]byte(protHeader(peerFrom, sc.protHdr) + `<stream:features/>`))
+			srv.Write([]byte(fix(protHeader(peerFrom, sc.protHdr)) + `<stream:features/>`))
 			// an empty list over TLS: the client may legitimately become ready
 			time.Sleep(time.Millisecond)
 			return
 		}
 		// honest SASL + bind
-		srv.Write([]byte(protHeader(peerFrom, sc.protHdr) + `<stream:features>` + mechs + `</stream:features>`))
+		srv.Write([]byte(fix(protHeader(peerFrom, sc.protHdr)) + `<stream:features>` + mechs + `</stream:features>`))
 		prot = nil
 		for !bytes.Contains(prot, []byte("</auth>")) {
 			n, err := srv.Read(buf)
@@ -552,7 +589,7 @@ func runSessionNeg(sc sessionCase, feature xmpp.StreamFeature, forceTee *bool, s
 				return
 			}
 		}
-		srv.Write([]byte(protHeader(peerFrom, "") + `<stream:features><bind xmlns="` + bindNS + `"/></stream:features>`))
+		srv.Write([]byte(fix(protHeader(peerFrom, "")) + `<stream:features><bind xmlns="` + bindNS + `"/></stream:features>`))
 		prot = nil
 		for !bytes.Contains(prot, []byte("</iq>")) {
 			n, err := srv.Read(buf)
@@ -595,7 +632,14 @@ func runSessionNeg(sc sessionCase, feature xmpp.StreamFeature, forceTee *bool, s
 			if sc.wrapped {
 				transport = meteredConn{Conn: conn}
 			}
-			s, res.err = xmpp.NewSession(context.Background(), loc, local, transport, 0, neg)
+			switch sc.ctor {
+			case "client":
+				s, res.err = xmpp.NewClientSession(context.Background(), local, transport, feats...)
+			case "server":
+				s, res.err = xmpp.NewServerSession(context.Background(), loc, local, transport, feats...)
+			default:
+				s, res.err = xmpp.NewSession(context.Background(), loc, local, transport, 0, neg)
+			}
 		})
 	}()
 	select {
@@ -770,13 +814,13 @@ func check(t failer, tc tcase) {
 			if r.sni != want {
 				fail("TLS ClientHello names %q; this session's own address has domain %q (cfg nil=%v)", r.sni, want, tc.nilCfg)
 			}
-			ev.Class("tls-handshake-started")
+			ev.Class("tls-handshake-started", "tls-handshake-started-constructor-"+sc.ctor)
 		}
 		if r.hsComplete && r.err == nil {
 			ev.Class("established-over-tls")
 		}
 		// (e) the tee changes nothing (deterministic clear-text branches only)
-		if sc.answer != "proceed" || sc.first == "missing-eof" || sc.first == "missing-error" {
+		if sc.ctor == "" && (sc.answer != "proceed" || sc.first == "missing-eof" || sc.first == "missing-error") {
 			off, on := false, true
 			a := runSession(sc, xmpp.StartTLS(cfg), &off)
 			b := runSession(sc, xmpp.StartTLS(cfg), &on)
